@@ -52,9 +52,9 @@ class Rec:
                 log[name + '()'] = w
                 # a call with ONE plain argument (a qubit, a name, an int) is also recorded under that argument, so that a
                 # function calling the same method with two different arguments can be replayed
-                if len(a2) == 1 and not k2:
-                    x = a2[0]
-                    key = tok(x.id) if qubit_like(x) else tok(x) if isinstance(x, str) else str(x) if type(x) is int else None
+                first = list(a) + list(k.values())       # the translator turns keywords into positionals in written order
+                if first:
+                    key = arg_key(first[0], reg)
                     if key is not None:
                         log[f'{name}({key})'] = w
                 return w
@@ -86,6 +86,21 @@ class Rec:
 
     def __repr__(self):
         return 'Rec(%r)' % (object.__getattribute__(self, '_o'),)
+
+
+def arg_key(x, reg):
+    """the key under which a call is recorded by its FIRST argument: a qubit, a name, an int — or `#<ident>` for a known object."""
+    if isinstance(x, Rec):
+        return '#%d' % reg.ident(object.__getattribute__(x, '_o'))
+    if qubit_like(x):
+        return tok(x.id)
+    if isinstance(x, str):
+        return tok(x)
+    if type(x) is int:
+        return str(x)
+    if id(x) in reg.ids:
+        return '#%d' % reg.ids[id(x)]
+    return None
 
 
 def _ids(v, reg):
@@ -501,6 +516,13 @@ def gen_conn_cases(rng, n):
         cases.append(('Conn_on_moving_side', [q, e, layer]))
         cases.append(('Conn_get_higher_frequency_qubit_id', [e, layer]))
         cases.append(('Conn_get_lower_frequency_qubit_id', [e, layer]))
+    for _ in range(n * 2):
+        k = rng.choice([0, 1, 1, 2, 2, 3])
+        es = rng.sample(edges, k)
+        es = [EdgeIDObj(*reversed(e.qubit_ids)) if rng.random() < 0.3 else e for e in es]
+        near = [q for e in es for q in e.qubit_ids] + [q for e in es for q0 in e.qubit_ids for q in layer.get_neighbors(q0, order=1)]
+        q = rng.choice(near) if near and rng.random() < 0.8 else rng.choice(qubits)
+        cases.append(('Conn_get_requires_parking', [q, es, layer]))
     return cases
 
 
@@ -520,10 +542,33 @@ def run_cases(cases):
         f = real_function(module, cls, fn)
         reg = Registry()
         pargs = [wrap(a, reg) for a in args]
+        # free functions of the module that the target calls and that are NOT translated themselves (`get_neighbors`, …) are
+        # answered from a table: every call is made for real (on the proxies) and its result recorded by the first argument
+        glog = {}
+        patched = {}
+        translated = {t[3] for t in tg.values() if t[2] is None and t[1] == module}
+        import types as _types
+        for nm in getattr(f, '__code__', None).co_names if hasattr(f, '__code__') else ():
+            g = f.__globals__.get(nm)
+            if isinstance(g, _types.FunctionType) and nm not in translated and g.__module__.startswith('qce_circuit'):
+                def make(orig, nm):
+                    def rec_call(*a, **k):
+                        r = orig(*a, **k)
+                        w = wrap(r, reg)
+                        key = arg_key(a[0], reg) if a else None
+                        glog[f'{nm}({key})' if key is not None else f'{nm}()'] = w
+                        return w
+                    return rec_call
+                patched[nm] = g
+                f.__globals__[nm] = make(g, nm)
         try:
-            with warnings.catch_warnings():
-                warnings.simplefilter('ignore')
-                res = f(*pargs)
+            try:
+                with warnings.catch_warnings():
+                    warnings.simplefilter('ignore')
+                    res = f(*pargs)
+            finally:
+                for nm, g in patched.items():
+                    f.__globals__[nm] = g
             exp = encode_result(unwrap_result(res), reg)
         except NotEncodable:
             skipped += 1
@@ -542,7 +587,18 @@ def run_cases(cases):
         except NotEncodable:
             skipped += 1
             continue
-        lines.append('py call ' + name + ' ' + ' '.join(toks))
+        if glog:
+            try:
+                gt = ['O', 'Globals', '0', str(len(glog))]
+                for k_, v_ in glog.items():
+                    gt.append(k_)
+                    gt += encode(v_, reg)
+            except NotEncodable:
+                skipped += 1
+                continue
+            lines.append('py callg ' + name + ' ' + ' '.join(gt) + ' ' + ' '.join(toks))
+        else:
+            lines.append('py call ' + name + ' ' + ' '.join(toks))
         expected.append(exp)
         descr.append((name, [repr(unwrap(a))[:80] for a in pargs]))
     return lines, expected, descr, skipped
